@@ -817,3 +817,61 @@ Example constant_format_example :
   GoFmt.fmt_go (GoFmt.mkformat ["match("; ", "; ")"]) ["val"; "'x'"] = Some "match(val, 'x')" /\
   GoFmtProofs.join_as_format "INNER ANY" (quote_seq "50%%off") = Some (" INNER ANY JOIN " ++ quote_seq "50%off").
 Proof. split; [reflexivity | exact (proj1 GoFmtProofs.rendered_text_as_format_changes_values)]. Qed.
+
+(* ---- round 6 (seeded C10-f): the statement that reaches ClickHouse is what the DRIVER makes of (text, bind arguments).
+   model/ChBind.v = clickhouse-go's client-side bind for string arguments (bindNumeric, bindPositional, the query-parameter test, the
+   driver's own quoting), tied to the real driver on generated (text, arguments) pairs sent through the repository's session wrapper
+   to a recording endpoint. *)
+From Qryn Require model.ChBind proofs.ChBindProofs.
+
+(* every session call of the reader hands the driver NO argument (census: gen_sql_sites has no "bind arguments beside a rendered
+   statement" site): the statement leaves the driver byte for byte as rendered, so every theorem above speaks about the wire text *)
+Theorem statement_without_bind_arguments_reaches_the_wire_unchanged : forall q, ChBind.bind_go q [] = Some q.
+Proof. exact ChBindProofs.bind_no_args. Qed.
+Print Assumptions statement_without_bind_arguments_reaches_the_wire_unchanged.
+
+(* whatever the arguments: a text without `$`, `?`, `{` holds no placeholder syntax and is sent as it stands *)
+Theorem placeholder_free_statement_reaches_the_wire_unchanged : forall q args,
+  ChBind.ph_free q = true -> ChBind.bind_go q args = Some q.
+Proof. exact ChBindProofs.bind_ph_free. Qed.
+Print Assumptions placeholder_free_statement_reaches_the_wire_unchanged.
+
+(* a CONSTANT statement with one placeholder (the allowed use of bind arguments): for ALL argument strings the driver writes its own
+   quoted form at the placeholder ... *)
+Theorem constant_statement_with_bound_string : forall pre post s,
+  ChBind.ph_free pre = true -> ChBind.ph_free post = true -> ChBind.starts_with_digit post = false ->
+  ChBind.bind_go (pre ++ "$1" ++ post) [s] = Some (pre ++ ChBind.drv_quote s ++ post).
+Proof. exact ChBindProofs.bind_constant_statement. Qed.
+Print Assumptions constant_statement_with_bound_string.
+
+(* ... which is exactly one ClickHouse string literal decoding to the argument (the driver escapes backslash and quote only; every
+   other byte stands for itself inside a literal) *)
+Theorem driver_quoted_argument_is_one_literal : forall s rest, safe_rest rest ->
+  lex_string (ChBind.drv_quote s ++ rest) = Some (s, rest).
+Proof. exact ChBindProofs.drv_quote_is_one_literal. Qed.
+Print Assumptions driver_quoted_argument_is_one_literal.
+
+(* ... but bind arguments BESIDE rendered request values break the property (seeded C10-f: `key == $1` with the label name bound):
+   for the matcher value x$1y and the label name ` or 1 or ` the driver writes the label name into the matcher's literal; the
+   statement still lexes, with another token structure than for a harmless value, while the statement the code writes as text (no
+   argument) keeps its structure.  Hence the census rule "bind arguments beside a non-constant statement are unclassified" and the
+   observation point behind the driver *)
+Theorem bound_argument_beside_rendered_values_refuted :
+  exists v label out out0,
+    ChBind.bind_go (ChBindProofs.values_stmt_bound v) [label] = Some out /\
+    ChBind.bind_go (ChBindProofs.values_stmt_bound "zqxmark") [label] = Some out0 /\
+    has_err (lex out) = false /\
+    skeleton (lex out) <> skeleton (lex out0) /\
+    ChBind.bind_go (ChBindProofs.values_stmt_text v label) [] = Some (ChBindProofs.values_stmt_text v label) /\
+    skeleton (lex (ChBindProofs.values_stmt_text v label)) = skeleton (lex (ChBindProofs.values_stmt_text "zqxmark" label)).
+Proof. exact ChBindProofs.bound_argument_beside_rendered_values_refuted. Qed.
+Print Assumptions bound_argument_beside_rendered_values_refuted.
+
+(* hypotheses met by real values: a rendered statement with a hostile literal survives an unused argument; a constant statement
+   with a hostile argument; the witness of the refutation as the driver prints it *)
+Example bind_examples :
+  ChBind.bind_go (ChBindProofs.values_stmt_text "it's" "job") ["unused"] = Some (ChBindProofs.values_stmt_text "it's" "job") /\
+  ChBind.bind_go ("SELECT val FROM t WHERE key == $1" ++ "") ["it's"] = Some ("SELECT val FROM t WHERE key == " ++ ChBind.drv_quote "it's") /\
+  ChBind.bind_go (ChBindProofs.values_stmt_bound "x$1y") [" or 1 or "]
+  = Some "SELECT val FROM t WHERE ((val) == ('x' or 1 or 'y')) and ((key) == (' or 1 or '))".
+Proof. split; [exact (proj2 ChBindProofs.bind_ph_free_example)|split; [vm_compute; reflexivity|exact ChBindProofs.bound_label_witness]]. Qed.
